@@ -265,6 +265,10 @@ func (c *Controller) CommitCertificate(qc *lib.QuorumCertificate, block *lib.Blo
 	if blockResult == nil {
 		// reset the FSM to ensure stale proposal validations don't come into play
 		c.FSM.Reset()
+		// the cached result of a validated proposal lost the pending state it relied on: it must not be used to commit later
+		if c.Consensus != nil {
+			c.Consensus.BlockResult = nil
+		}
 		// restore root dex cache from the embedded certificate result for deterministic replay
 		if qc.Results != nil && qc.Results.RootDexBatch != nil {
 			// NOTE: hand the state machine a copy - execution normalizes the cached batch in place (DexBatch.Hash() fills in the
@@ -382,6 +386,10 @@ func (c *Controller) CommitCertificateParallel(qc *lib.QuorumCertificate, block 
 	if blockResult == nil {
 		// reset the FSM to ensure stale proposal validations don't come into play
 		c.FSM.Reset()
+		// the cached result of a validated proposal lost the pending state it relied on: it must not be used to commit later
+		if c.Consensus != nil {
+			c.Consensus.BlockResult = nil
+		}
 		// restore root dex cache from the embedded certificate result for deterministic replay
 		if qc.Results != nil && qc.Results.RootDexBatch != nil {
 			// NOTE: hand the state machine a copy - execution normalizes the cached batch in place (DexBatch.Hash() fills in the
